@@ -2850,19 +2850,28 @@ class AggregateBase(UnitsManaged, Saveable, OpenSystem):
                 with eigenbasis_of(Ham):
                     H = Ham.data
 
-                start = self.Nb[0] # this is where excited state starts
+                    start = self.Nb[0] # this is where excited state starts
 
-                # we subtract lowest energy to ease the calcultion,
-                # but we do not remove reorganization enegies
-                subt = numpy.zeros(H.shape[0])
-                subtfil = numpy.amin(numpy.array([H[ii,ii] \
+                    # we subtract lowest energy to ease the calcultion,
+                    # but we do not remove reorganization enegies
+                    subt = numpy.zeros(H.shape[0])
+                    subtfil = numpy.amin(numpy.array([H[ii,ii] \
                                     for ii in range(start, H.shape[0])]))
-                subt.fill(subtfil)
+                    subt.fill(subtfil)
 
-                rho0 = self._thermal_population(temperature,\
-                            subtract = subt,
-                            relaxation_hamiltonian=H,
-                            start=start)
+                    rho0 = self._thermal_population(temperature,\
+                                subtract = subt,
+                                relaxation_hamiltonian=H,
+                                start=start)
+
+                    # the populations refer to the exciton basis, so the
+                    # density matrix object has to be created in it; it is 
+                    # transformed to the basis of the caller on leaving
+                    # the context
+                    self.rho0 = rho0
+                    rho_exc = DensityMatrix(data=self.rho0)
+                    
+                return rho_exc
 
             else:
                 raise Exception("Unknown relaxation_theory_limit")
